@@ -304,6 +304,42 @@ def rule_f(ctx, cr):
                   "the DEFtype purge decides `typed by suffix` with a character class test instead "
                   "of the four suffix characters: a name ending in a digit (A1) is skipped, so "
                   "after DEFINT A the Integer variable A1 still holds its Single value")
+        # each stored value is kept iff the new type equals ITS type
+        arms = {}
+        for c in cl.calls():
+            if "VarType as std::cmp::PartialEq>::" not in c.name:
+                continue
+            meth = c.name.rsplit("::", 1)[1]
+            vs = None
+            for cc in cl.conds_at(c.bb):
+                if cc[0] == "variant" and cc[2] == "mach::val::Val":
+                    vs = cc[3]
+            vt = None
+            for a in c.args:
+                m = re.search(r"VarType::(\w+)\(\)", cl.describe(a))
+                if m:
+                    vt = m.group(1)
+                    continue
+                # a promoted constant `&VarType::X`
+                v = cl.value_of_operand(a)
+                loc = None
+                if v and v.get("k") == "rv" and v["rv"]["k"] == "ref":
+                    loc = v["rv"]["place"]["local"]
+                for d_ in cl.defs().get(loc, []) if loc is not None else []:
+                    if d_[0] == "stmt" and d_[3]["k"] == "use" and d_[3]["op"].get("k") == "const":
+                        pi = d_[3]["op"]["const"].get("promoted")
+                        pf = {g.path: g for g in cl.promoted_fns()}
+                        for g in cl.promoted_fns():
+                            if g.path.endswith("{promoted#%s}" % pi):
+                                for _b, _i, st_ in g.aggregates("mach::var::VarType"):
+                                    vt = st_["rv"]["variant"]
+            arms[vs] = (meth, vt)
+        want = {v: ("eq", v) for v in ("Integer", "Single", "Double", "String")}
+        ctx.check(arms == want, "C06.f", "def-closure/keeps-values-of-the-new-type", cl.span,
+                  "a value survives DEFtype iff `new type == its own type`, arm by arm",
+                  "the DEFtype purge compares %s (expected %s): for one value type the purge is "
+                  "inverted - values of the new type are dropped and values of another type "
+                  "survive in a variable that is now of the new type" % (arms, want))
         for i, c in enumerate(cl.calls(), 1):
             nm = c.callee or ""
             if re.search(r"Range(Inclusive)?::<Idx>::contains$|PartialOrd", nm) and \
